@@ -23,6 +23,7 @@ import (
 	"mellium.im/xmpp/mux"
 	"mellium.im/xmpp/stanza"
 	"mellium.im/xmpp/stream"
+	"mellium.im/xmpp/websocket"
 	"verifharness/hx"
 )
 
@@ -98,6 +99,9 @@ func (s STok) AttrVal(local string) (string, bool) {
 	return "", false
 }
 
+const wsNS = "urn:ietf:params:xml:ns:xmpp-framing"
+const wsHdr = `<open xmlns="` + wsNS + `" version="1.0" id="123" from="peer.example"/><features xmlns="` + stream.NS + `"/>`
+
 const streamHdr = `<stream:stream id="123" version="1.0" xmlns="%s" xmlns:stream="` + stream.NS + `">`
 
 // Tokenize runs encoding/xml over raw bytes sent inside an open stream whose
@@ -116,6 +120,53 @@ func Tokenize(b []byte, ns string) []STok {
 		}
 		out = append(out, FromXML(xml.CopyToken(tok)))
 	}
+}
+
+// TokenizeRaw runs encoding/xml over a WebSocket script: a sequence of
+// top-level elements that carry their own name space declarations.
+func TokenizeRaw(b []byte) []STok {
+	out, _ := tokenizeRaw(b)
+	return out
+}
+
+// tokenizeRaw also reports whether the input ended between two top-level
+// elements: there the tokenizer's error is a plain io.EOF (on a TCP stream the
+// open <stream:stream> makes every end of input a syntax error).
+func tokenizeRaw(b []byte) (out []STok, cleanEOF bool) {
+	d := xml.NewDecoder(bytes.NewReader(b))
+	for {
+		tok, err := d.Token()
+		if err != nil {
+			return out, err == io.EOF
+		}
+		out = append(out, FromXML(xml.CopyToken(tok)))
+	}
+}
+
+// CleanEOF: a WebSocket script that just stops between two elements (no <close/>).
+func (sp Spec) CleanEOF() bool {
+	if !sp.WS {
+		return false
+	}
+	_, c := tokenizeRaw([]byte(sp.Script))
+	return c
+}
+
+// Tokens is the tokenizer's reading of what the peer sends.
+func (sp Spec) Tokens() []STok {
+	if sp.WS {
+		return TokenizeRaw([]byte(sp.Script))
+	}
+	return Tokenize([]byte(sp.Script), sp.NS)
+}
+
+// Expected is the reference reading of the script.
+func (sp Spec) Expected() Expect {
+	e := Walk(sp.Tokens(), sp.WS)
+	if e.Terminal == "decode" && sp.CleanEOF() && (len(e.Elems) == 0 || !e.Elems[len(e.Elems)-1].Truncated) {
+		e.Terminal = "eof"
+	}
+	return e
 }
 
 // ---- error classes (codes of coq/C08/Case.v perr) ----
@@ -316,6 +367,10 @@ type Spec struct {
 	Mode   int      `json:"mode"`   // 0 programs, 1 multiplexer
 	Progs  [][]Op   `json:"progs,omitempty"`
 	Regs   []MuxReg `json:"regs,omitempty"`
+	// WebSocket framing (RFC 7395): the session is negotiated with
+	// websocket.Negotiator (no features); the script's elements carry their own
+	// name space declarations and the peer ends with <close/>.
+	WS bool `json:"ws,omitempty"`
 	// requests of this session that are outstanding while the script is served
 	Pend  []PendSpec `json:"pend,omitempty"`
 	Label string     `json:"label,omitempty"`
@@ -383,7 +438,20 @@ func Run(sp Spec) Obs {
 		own = jid.MustParse(sp.Own)
 	}
 	// NewSession(ctx, location, origin, ...): LocalAddr() is the origin
-	sess, err := hx.NewReadySession(c, sp.NS, 0, jid.MustParse("peer.example"), own)
+	var sess *xmpp.Session
+	var err error
+	if sp.WS {
+		c = &scriptConn{in: bytes.NewReader([]byte(wsHdr + sp.Script))}
+		state := xmpp.SessionState(0)
+		if sp.NS == stanza.NSServer {
+			state = xmpp.S2S
+		}
+		sess, err = xmpp.NewSession(context.Background(), jid.MustParse("peer.example"), own, c, state,
+			websocket.Negotiator(func(*xmpp.Session, *xmpp.StreamConfig) xmpp.StreamConfig { return xmpp.StreamConfig{} }))
+		o.Base = c.out.Len() // the session's own <open/>
+	} else {
+		sess, err = hx.NewReadySession(c, sp.NS, 0, jid.MustParse("peer.example"), own)
+	}
 	if err != nil {
 		o.SetupErr = err.Error()
 		return o
@@ -454,8 +522,15 @@ func Run(sp Spec) Obs {
 	o.Ret = Classify(ret)
 	o.Out = c.out.String()
 	o.Wire, _, o.WireErr, o.WireBad = ParseWire(c.out.Bytes()[o.Base:], sp.NS)
+	wsClosed := false
+	if sp.WS {
+		o.Wire, wsClosed = stripWSClose(o.Wire)
+		if o.WireErr == "" {
+			o.Wire, o.WireErr = stripStreamError(o.Wire)
+		}
+	}
 	// the closing tag is written raw, whatever the handler left open
-	o.Closed = strings.HasSuffix(strings.TrimSpace(o.Out), "</stream:stream>")
+	o.Closed = strings.HasSuffix(strings.TrimSpace(o.Out), "</stream:stream>") || wsClosed
 	return o
 }
 
@@ -629,6 +704,52 @@ func (pw *pendWorld) stop() bool {
 	}
 	xmpp.VerifSetHook(nil)
 	return ok
+}
+
+// lastTop returns the index of the start tag of the last complete top-level element, or -1.
+func lastTop(toks []STok) int {
+	depth, start, last := 0, -1, -1
+	for i, t := range toks {
+		switch t.K {
+		case 1:
+			if depth == 0 {
+				start = i
+			}
+			depth++
+		case 2:
+			depth--
+			if depth == 0 {
+				last = start
+			}
+		}
+	}
+	if depth != 0 {
+		return -1
+	}
+	return last
+}
+
+// stripWSClose removes the trailing <close/> of a WebSocket stream.
+func stripWSClose(toks []STok) ([]STok, bool) {
+	if i := lastTop(toks); i >= 0 && toks[i].Space == wsNS && toks[i].Local == "close" {
+		return toks[:i], true
+	}
+	return toks, false
+}
+
+// stripStreamError removes a trailing top-level stream error and reports its condition.
+func stripStreamError(toks []STok) ([]STok, string) {
+	if i := lastTop(toks); i >= 0 && toks[i].Space == stream.NS && toks[i].Local == "error" {
+		werr := "?"
+		for _, t := range toks[i+1:] {
+			if t.K == 1 {
+				werr = t.Local
+				break
+			}
+		}
+		return toks[:i], werr
+	}
+	return toks, ""
 }
 
 // ParseWire tokenises what the session wrote. xmlns attributes are dropped, a
@@ -865,7 +986,7 @@ func Encodable(sp Spec, o Obs) bool {
 	if len(o.Invs) > 255 || len(sp.Progs) > 255 || len(o.Divs) > 255 {
 		return false
 	}
-	if DivertedDirty(sp) {
+	if sp.WS && sp.Expected().Terminal == "eof" { // the model's tokenizer ends with an error, never with a plain EOF
 		return false
 	}
 	return true
@@ -874,8 +995,8 @@ func Encodable(sp Spec, o Obs) bool {
 // EncodeCase renders the case as the byte string parse_case reads.
 func EncodeCase(sp Spec, o Obs, muxFixed bool) []byte {
 	var b Blob
-	script := Tokenize([]byte(sp.Script), sp.NS)
-	b.Bool(false) // ws
+	script := sp.Tokens()
+	b.Bool(sp.WS)
 	b.Str(sp.NS)
 	b.Str(o.OwnBare)
 	b.Str(o.From)
